@@ -31,7 +31,9 @@ theorem locFoldFree_of_ref {m : Module} {unit : Nat} {f : Field} (h : refField m
       simp only [Bool.and_eq_true] at h2
       obtain ‚ü®z, hz, _‚ü© := sizeIsBits_inv h2.2
       subst hz
-      simp only [h2.1.1.2, foldFree, Bool.and_self]
+      have hs := h2.1.1.2
+      simp only [foldFree] at hs
+      simp only [foldFree, closedFolds, hs, Bool.and_self]
     | struct name bits args =>
       simp only [Bool.and_eq_true] at h2
       simp only [h2.1.1.1, h2.1.1.2, Bool.and_self]
@@ -58,12 +60,15 @@ theorem foldFree_sizeClauses : ‚àÄ fs : List Field, fs.all locFoldFree = true ‚Ü
     | virt a b => simpa only using ih
     | phys start size ty bo =>
       rw [hk] at hf
-      simp only [Bool.and_eq_true] at hf
-      simp only [foldFreeList, sizeClause, foldFree, hf.1, hf.2.1, hf.2.2, ih, Bool.and_self]
+      simp only [Bool.and_eq_true, foldFree] at hf
+      simp only [foldFreeList] at ih ‚ä¢
+      simp only [closedFoldsList, sizeClause, closedFolds, hf.1, hf.2.1, hf.2.2, ih, Bool.and_self]
 
 theorem foldFree_synthSize (fs : List Field) (h : fs.all locFoldFree = true) :
     foldFree (synthSize fs) = true := by
-  simp only [synthSize, foldFree, foldFreeList, foldFree_sizeClauses fs h, Bool.and_self]
+  have := foldFree_sizeClauses fs h
+  simp only [foldFreeList] at this
+  simp only [synthSize, foldFree, closedFolds, closedFoldsList, this, Bool.and_self]
 
 /-- The per-field clause of the generated `Equals`, for a scalar physical field, in terms of what
 the two views report one level up. -/
